@@ -20,6 +20,7 @@ type Obligation struct {
 	Guard    Term
 	Goal     Term
 	Bounded  string
+	Cites    []string // lemma instances for the state the obligation is stated in
 	Splits   []Term // edge guards into the obligation's block: a failed attempt is retried per edge
 	SplitBlk []int  // predecessor block of each split edge
 	Blk      int    // block the obligation belongs to (-1: whole function)
@@ -65,6 +66,10 @@ type loopInfo struct {
 }
 
 type FuncVC struct {
+	immTerm map[Term]Term // id term of a write-once cell -> the value stored in it
+	immCells map[*ssa.Alloc]ssa.Value
+	curCites []string
+	callSeen map[string]int // calls met so far per callee (for `before callee k : ...`)
 	inDryRun bool
 	closedSeen map[string]bool // heap-closedness facts already emitted for (cell read, state)
 	P     *Program
@@ -196,7 +201,9 @@ func (fv *FuncVC) obligeAt(guard Term, kind, label string, props []string, goal 
 			splits, splitBlk = nil, nil
 		}
 	}
-	fv.citeAt(guard)
+	fv.citeFor(guard, name)
+	cites := append([]string(nil), fv.curCites...)
+	defer func() { fv.obls[len(fv.obls)-1].Cites = cites }()
 	fv.obls = append(fv.obls, &Obligation{Name: name, Kind: kind, Props: props, Func: fv.name, Pos: fv.posOf(pos), Desc: desc, Guard: guard, Goal: goal, fv: fv, Bounded: bounded, Splits: splits, SplitBlk: splitBlk, Blk: blk})
 }
 
@@ -832,11 +839,30 @@ func (fv *FuncVC) contractHeaps(cc *FuncContract, com *ssa.CallCommon) (heaps []
 
 // citeAt: the lemmas a contract cites are valid in every state; they are assumed (in the
 // current state) at every point where an obligation is generated.
-func (fv *FuncVC) citeAt(guard Term) {
+func (fv *FuncVC) citeAt(guard Term) { fv.citeFor(guard, "") }
+
+func (fv *FuncVC) citeFor(guard Term, oblName string) {
+	fv.curCites = nil
 	if fv.c == nil || len(fv.c.Cites) == 0 || fv.st == nil {
 		return
 	}
+	done := map[string]bool{}
 	for _, name := range fv.c.Cites {
+		if done[name] {
+			continue
+		}
+		done[name] = true
+		if parts := fv.c.CiteFor[name]; len(parts) > 0 {
+			hit := false
+			for _, p := range parts {
+				if strings.Contains(oblName, p) {
+					hit = true
+				}
+			}
+			if !hit {
+				continue
+			}
+		}
 		var lem *Lemma
 		for _, l := range fv.P.lemmas {
 			if l.Name == name {
@@ -848,12 +874,9 @@ func (fv *FuncVC) citeAt(guard Term) {
 		}
 		env := &Env{e: fv.e, vars: map[string]TV{}, st: fv.st, old: fv.entry, pkg: lem.Pkg, alloc0: fv.alloc0}
 		t := env.trHyp(lem.Stmt())
-		key := "cite:" + t
-		if fv.e.declared[key] {
-			continue
-		}
-		fv.e.declared[key] = true
-		fv.addBg("(assert "+t+")", 0)
+		// one copy per obligation, for the heap versions of the state the obligation is stated in (a copy for every
+		// state met anywhere in the function would multiply the quantifier load of every query)
+		fv.curCites = append(fv.curCites, "(assert "+t+")")
 		fv.assumptions["cites lemma "+name+" (proved separately: obligation lemma:"+name+")"] = true
 	}
 }
